@@ -57,7 +57,7 @@ def check_inv(ctx, a, m, cls):
         return
     ok = lib.is_int(int(i)) and 0 <= i < m and (a * i - 1) % m == 0
     sign = "neg" if a < 0 else ("big" if a >= m else "in")
-    ctx.case(cls, key="%s|%s" % (sign, m if m < 500 else m.bit_length()))
+    ctx.case(cls, key="%s|%s" % (sign, m if m < 500 else m.bit_length()), sample=dict(fn="inverse_mod", a=a, m=m, result=int(i)) if ctx.want(cls) else None)
     ctx.check(ok, "inverse_wrong", "inverse_mod(%d,%d) = %r" % (a, m, i), dict(a=a, m=m, got=int(i)), _repro("inverse_mod", a, m))
 
 
@@ -85,7 +85,7 @@ def check_sqrt(ctx, a, p, extra=""):
         ctx.case(cls, key=key)
         ctx.violation("sqrt_raises_other", "square_root_mod_prime(%d,%d) raised %s: %s" % (a, p, type(e).__name__, e), dict(a=a, p=p), _repro("square_root_mod_prime", a, p))
         return
-    ctx.case(cls, key=key)
+    ctx.case(cls, key=key, sample=dict(fn="square_root_mod_prime", a=a, p=p, result=int(r), legendre=leg) if ctx.want(cls) else None)
     if leg == -1:
         ctx.violation("sqrt_value_for_nonresidue", "root %r returned for non-residue a=%d p=%d" % (r, a, p), dict(a=a, p=p, got=int(r)), _repro("square_root_mod_prime", a, p))
         return
@@ -101,7 +101,8 @@ def check_jac(ctx, a, n, factors, cls):
         ctx.case(cls, key="exc")
         ctx.violation("jacobi_raises", "jacobi(%d,%d) raised %s" % (a, n, type(e).__name__), dict(a=a, n=n), _repro("jacobi", a, n))
         return
-    ctx.case(cls, key="%s|%s|%s" % (n if n < 3000 else n.bit_length(), len(factors), "neg" if a < 0 else ("big" if a >= n else "in")))
+    ctx.case(cls, key="%s|%s|%s" % (n if n < 3000 else n.bit_length(), len(factors), "neg" if a < 0 else ("big" if a >= n else "in")),
+             sample=dict(fn="jacobi", a=a, n=n, factors=factors, result=got, expected=want) if ctx.want(cls) else None)
     ctx.check(got == want, "jacobi_wrong", "jacobi(%d,%d) = %r, product of Legendre symbols = %d" % (a, n, got, want),
               dict(a=a, n=n, got=got, want=want, factors=factors), _repro("jacobi", a, n))
 
